@@ -1,0 +1,33 @@
+//go:build verif
+
+package publicationpb
+
+// Machine-checked contracts for this package (comment-only; excluded from normal builds).
+
+//@ property C15
+//@ func capPageSize(pageSize) (r)
+//@   ensures pageSize == 0 ==> r == 50
+//@   ensures pageSize > 1000 ==> r == 1000
+//@   ensures pageSize != 0 && pageSize <= 1000 ==> r == pageSize
+//@   modifies nothing
+//@
+//@ pure func sortedListPublications(ms) = forall i int, j int :: 0 <= i && i < j && j < len(ms) ==> ms[i].Id < ms[j].Id
+//@ pure func allListPublications(ms) = forall i int :: 0 <= i && i < len(ms) ==> ms[i] != nil
+//@
+//@ // the listing the pages are cut from: sorted by the paging key (Collection.List is sorted by id and every stored
+//@ // item carries its collection id; assumed here, see C01)
+//@ func (*Model).ListPublications(opts) (res)
+//@   trusted
+//@   ensures allListPublications(res) && sortedListPublications(res)
+//@   modifies nothing
+//@
+//@ func (*ModelServer).ListPublications(ctx, request) (resp, err)
+//@   requires recv != nil && recv.model != nil && request != nil
+//@   let all := lastcall(ListPublications)
+//@   ensures [negative] request.PageSize < 0 ==> err != nil
+//@   ensures [total] err == nil && len(all) <= 2147483647 ==> resp.TotalSize == len(all)
+//@   ensures [page] err == nil ==> 0 <= nextIndex && nextIndex <= upperBound && upperBound <= len(all) && resp.Publications == all[nextIndex:upperBound]
+//@   ensures [start] err == nil ==> (lastKey == "" ==> nextIndex == 0) && (forall i int :: 0 <= i && i < nextIndex ==> all[i].Id <= lastKey) && (forall i int :: nextIndex <= i && i < len(all) ==> lastKey == "" || all[i].Id > lastKey)
+//@   ensures [size] err == nil ==> 1 <= pageSize && pageSize <= 1000 && (request.PageSize == 0 ==> pageSize == 50) && upperBound - nextIndex <= pageSize && (upperBound == len(all) || upperBound - nextIndex == pageSize)
+//@   ensures [last-page] err == nil && nextIndex + pageSize > len(all) ==> resp.NextPageToken == ""
+//@   replay PublicationList(request.PageSize)
